@@ -49,6 +49,14 @@ def has_path_def(f):
     """The cycle test: takes the wait-for map (by reference) and returns bool."""
     def go():
         c = [d for d in wait_map_fns(f) if f.ty(f.fns[d]["output"]).k == "bool" and any(_mentions_wait_map(f, t) for t in f.fns[d]["inputs"])]
+        c = [d for d in c if f.by_def.get(d)] or c       # after the splice, inlined wrappers are gone
+        if len(c) > 1:
+            # `closes_cycle(g, caller, callee) = caller == callee || has_path(g, ..)`: a boolean wrapper around the walk is an
+            # ordinary helper (inlined into its caller); the cycle test is the candidate that calls no other candidate
+            calls = {d: {(blk.term.get("fn") or {}).get("def") for b in f.family(d) for blk in b.calls()} for d in c}
+            leaf = [d for d in c if not (calls[d] & (set(c) - {d}))]
+            if len(leaf) == 1:
+                return leaf[0]
         return c[0] if len(c) == 1 else None
     return _get(f, "has_path", go)
 
@@ -223,6 +231,8 @@ def keep_defs(f):
     # wait chain shared by the test and the formatter) are inlined into them
     for d in wait_map_fns(f):
         out = f.ty(f.fns[d]["output"])
+        if out.k == "bool" and has_path_def(f) not in (None, d):
+            continue        # a boolean wrapper around the cycle test: inlined
         if out.k == "bool" or any(x.is_adt("std::sync::Mutex") for x in out.walk()) or out.is_adt("std::string::String") or out.s.endswith("String"):
             keep.add(d)
     # accessors handing out the metrics collector (observation only; the cross-configuration diff erases them by role)
